@@ -71,7 +71,7 @@ def seq_exhaustive(L, oss=(2,), caps=(0, 1)):
 
 
 def rand_history(rng, nops, big=False):
-    os_ = rng.choice([1, 1, 2, 3, 4, 7, 8, 8, 16, 31, 63, 64, rng.randrange(1, 65)])
+    os_ = rng.choice([1, 1, 2, 3, 4, 7, 8, 8, 9, 16, 31, 63, 64, 65, 255, 256, 257, 300, rng.randrange(1, 65)])
     cap = rng.choice([0, 0, 1, 2, 3, rng.randrange(0, 21)])
     opts = rng.choice([8, 4, 2, 8, 4, 2, 0, 1, rng.randrange(16)])
     ops = ['new %d %d %d' % (cap, os_, opts)]
@@ -153,6 +153,23 @@ def edge_stream(rng):
                 for b in big:
                     h += ['addat %d %s' % (b, x), 'getat %d' % b, 'setat %d %s' % (b, x), 'popat %d' % b, 'removeat %d' % b, 'walk %d 2' % b]
                 h += ['addlast ' + hexs(elem(os_, 20 + n)), 'toarray']
+            hists.append(h)
+    # elements that share a long prefix with the stored one and differ only behind it (sizes around 8, 64 and 256 bytes): set, get, reverse
+    for os_ in (2, 8, 9, 12, 16, 17, 63, 64, 65, 255, 256, 257, 300, 513):
+        for opts in (8, 2):
+            base = elem(os_, 5)
+            vars_ = [base[:-1] + bytes([base[-1] ^ 0x5a]), base[:os_ // 2] + bytes(b ^ 0xff for b in base[os_ // 2:]), base[:8] + bytes(b ^ 0x33 for b in base[8:])]
+            h = ['new 2 %d %d' % (os_, opts)] + ['addlast ' + hexs(base)] * 3 + ['addlast ' + hexs(elem(os_, 6))]
+            for i, v in enumerate(vars_):
+                h += ['setat %d %s' % (i - 2, hexs(v)), 'getat %d' % (i - 2), 'toarray']
+            h += ['setfirst ' + hexs(vars_[0]), 'setlast ' + hexs(vars_[1]), 'toarray', 'reverse', 'toarray', 'getat 0', 'getat -1', 'reverse', 'toarray', 'walk 0 9']
+            hists.append(h)
+    # a vector that has been large, cleared and used again (capacities beyond 4 KiB and beyond 64 KiB in bytes)
+    for (os_, n) in ((1, 4200), (8, 600), (64, 70), (300, 20)):
+        for opts in (8, 2):
+            h = ['new 0 %d %d' % (os_, opts)] + ['addlast ' + hexs(elem(os_, k % 200)) for k in range(n)]
+            h += ['size', 'clear', 'size', 'addlast ' + hexs(elem(os_, 201)), 'addfirst ' + hexs(elem(os_, 202)), 'getat 0', 'getat -1', 'toarray', 'clear', 'toarray',
+                  'resize 0', 'addlast ' + hexs(elem(os_, 203)), 'toarray']
             hists.append(h)
     # explicit resize to every capacity around num, including zero, then continue to use the vector
     for opts in (8, 4, 2):
